@@ -114,3 +114,15 @@ chk("C16", "exploration",
     "Trusted: np.shares_memory; the invariant is asserted exactly as stated (shape () => unyt_quantity, size > 1 => not a quantity); "
     "0-d operands are built as quantities (an explicit unyt_array(0-d ndarray) keeps the class the caller asked for).",
     "Hypothesis shape/index/accessor generation with class, aliasing and write-through invariants", "DESIGN.md §3 C16")
+chk("C18", "fault_enumeration",
+    "Fault enumeration over ~33 in-place call sites (convert_to_units/base/cgs/mks/equivalent, augmented assignment, out=, item "
+    "assignment, in-place NumPy functions) x injected fault kinds (dimension mismatch, unknown or malformed unit, invalid "
+    "equivalence, bogus unit system, dimensional / non-uniform exponent, offset scale, 8-bit buffer) x 14 operand units (incl. "
+    "unsimplified compounds such as km/m, J/erg whose Unit objects simplify() could rewrite) x 6 dtypes x generated values: after a "
+    "raise the target's numbers and unit must be intact. Interleaved in the same process with ~75 copying calls and the whole "
+    "NumPy catalogue on strided-view operands (bytes of the surrounding buffer, dtype, shape, unit expr/scale/offset/dimension/"
+    "str/repr before vs after) and with in-place/copy twin agreement, so state left by a failed call is exposed by what follows.",
+    "Trusted: snapshots taken through NumPy (tobytes) and Unit attributes. A failed in-place call may retype an integer target to "
+    "float with numbers and unit intact (the statement promises numbers and unit). Whether a faulty call is refused at all is "
+    "C01/C08's subject.",
+    "fault injection at every in-place call site + before/after snapshots; Hypothesis values and call sequences", "DESIGN.md §3 C18")
